@@ -220,6 +220,19 @@ def analyse_eq(ctx, fi: FuncInfo) -> EqShape:
                 and isinstance(it.value, ast.Name)
             ):
                 names = slot_names(ctx, ci)
+                # `self.__slots__` / `type(self).__slots__` is looked up on the
+                # most derived class: for a subclass that declares its own
+                # __slots__ it names only the added attributes, so none of the
+                # base class's content is compared any more.  `<Class>.__slots__`
+                # (the class named explicitly) does not have that problem.
+                if it.value.id in self_names | other_names:
+                    sh.problems.append((
+                        node,
+                        f"the compared attributes are taken from `{ast.unparse(it)}`, which for a subclass with its own "
+                        f"__slots__ lists only the subclass's additions: {ci.name}'s own fields (and with them machines, "
+                        "durations, ids) drop out of the comparison and objects with different content compare equal",
+                    ))
+                    return
             elif isinstance(it, (ast.Tuple, ast.List)) and all(
                 isinstance(e, ast.Constant) for e in it.elts
             ):
